@@ -1128,6 +1128,8 @@ class Executor:
         if issubclass(pycls, BaseException):
             return [self.res(st, SExc(pycls, args, kwargs))]
         name = "%s.%s" % (pycls.__module__, pycls.__qualname__)
+        if pycls.__module__.startswith("gunicorn") and ("ctor:" + pycls.__name__) in self.env.stubs:
+            return self.env.call_stub(self, st, StubV("ctor:" + pycls.__name__), args, kwargs, node)
         if pycls.__module__.startswith("gunicorn"):
             key = pycls.__name__
             ref = st.alloc(HObj(key))
